@@ -34,6 +34,9 @@ for sid in ids:
         pass
     meta = {
         "id": sid,
+        "harness_commit": subprocess.run(["git", "-C", V, "rev-parse", "--short", "HEAD"], capture_output=True, text=True).stdout.strip()
+                          + ("+uncommitted" if subprocess.run(["git", "-C", V, "status", "--porcelain", "harness", "check"], capture_output=True, text=True).stdout.strip() else ""),
+        "repo_commit": subprocess.run(["git", "-C", "/repo", "rev-parse", "--short", "HEAD"], capture_output=True, text=True).stdout.strip(),
         "property": sid.split("-")[0],
         "confirmed": ok,
         "confirmation": confirm,
